@@ -122,6 +122,14 @@ def seq_rotate1(it, obj):
     c.hset(obj, '$items', z3.If(n > 1, z3.Store(A, 0, z3.Select(items, n - 1)), items))
 
 
+def seq_rotate_m1(it, obj):
+    """deque.rotate(-1): the first element moves to the back."""
+    c = it.c
+    n, items = seq_len(it, obj), seq_items(it, obj)
+    A = shifted(c, items, 0, n - 1, 1, 'rotm')
+    c.hset(obj, '$items', z3.If(n > 1, z3.Store(A, n - 1, z3.Select(items, 0)), items))
+
+
 def seq_extend(it, obj, other):
     """deque.extend(other) without overflow handling beyond maxlen truncation from the left."""
     c = it.c
@@ -380,6 +388,10 @@ def builtin_attr(it, obj, attr):
         return c.read(obj, attr)
     if bt == 'match':
         return SBuiltin('match.' + attr, obj)
+    if bt == 'deque' and attr == 'maxlen':
+        return SInt(c.hget(obj, '$maxlen'))
+    if bt == 'Queue' and attr == 'unfinished_tasks':
+        return SInt(c.hget(obj, 'unfinished'))
     return c.read(obj, attr)
 
 
@@ -411,6 +423,15 @@ def construct(it, cls, args, kwargs, node):
         for f in fields:
             c.write(r, f, vals[f])
         return r
+    if name == 'namedtuple':
+        try:
+            tn = args[0]
+            for bound, (typename, fields) in it.src.namedtuples.items():
+                if typename == tn:
+                    return SClass('namedtuple:' + bound)
+        except Exception:
+            pass
+        raise Unsupported('namedtuple declaration not indexed')
     if name == 'deque':
         ml = kwargs.get('maxlen')
         return new_seq(it, 'deque', (), ml, 'deque')
@@ -716,6 +737,9 @@ def seq_call(it, obj, meth, args, kwargs):
     if meth == 'rotate':
         if args and args[0] == 1:
             seq_rotate1(it, obj)
+            return None
+        if args and args[0] == -1:
+            seq_rotate_m1(it, obj)
             return None
         raise Unsupported('rotate(n) for n != 1')
     if meth == 'extend':
